@@ -118,6 +118,8 @@ def run_harness(ctx):
     # free-running scenarios (the real Watcher.Run): judged by their monitors only
     ctx.free_runs = [r for r in allrows if r.get("k") == "run" and "harness_panic" not in r]
     ctx.fh_rows = [r for r in allrows if r.get("k") == "fh"]
+    ctx.fhseq_rows = [r for r in allrows if r.get("k") == "fhseq"]
+    ctx.cov["fetch_height_answer_sequences"] = [r.get("answers") for r in ctx.fhseq_rows]
     ctx.cov["harness_process_crashes"] = [{"panic": c["panic"], "frames": c["frames"], "scenarios": [s["id"] for s in c["scenarios"]]} for c in crashes]
     return [r for r in rows if "harness_panic" not in r]
 
@@ -153,7 +155,7 @@ def monitors(ctx, rows, prop, limit=6):
                 continue
             n += 1
             seen.setdefault(key, []).append((r, msg))
-    for r in getattr(ctx, "free_runs", []) + getattr(ctx, "fh_rows", []):
+    for r in getattr(ctx, "free_runs", []) + getattr(ctx, "fh_rows", []) + getattr(ctx, "fhseq_rows", []):
         for m in r.get("mon", []):
             p, key, msg = m.split("|", 2)
             if p != prop:
